@@ -25,7 +25,9 @@ def run(seed):
         q = subprocess.run([V + "/tools_seedrun.sh", V + "/seeded/%s/patch.diff" % seed, V + "/check", p,
                             "--tier", "quick"], cwd=V, capture_output=True, text=True)
         out = q.stdout
-        if q.returncode == 1:
+        if q.returncode == 3 and "PATCH-DOES-NOT-APPLY" in out:
+            err[p] = "patch does not apply any more"
+        elif q.returncode == 1:
             det[p] = sorted(set(l.split("rule=")[1].split()[0] for l in out.splitlines()
                                 if l.strip().startswith("rule=")))
         elif q.returncode != 0:
